@@ -165,7 +165,8 @@ fn check_typed<T: Serialize + DeserializeOwned + std::fmt::Debug>(ty: &str, v: &
 }
 
 fn prop_typed(t: &mut Tape, st: &mut Stats) -> Result<(), Failure> {
-    let r = match t.below(6) {
+    let r = match t.below(7) {
+        6 => check_typed("Attrs", &g_attrs(t), st),
         0 => check_typed("Scalars", &g_scalars(t), st),
         1 => check_typed("Opts", &g_opts(t), st),
         2 => check_typed("Seqs", &g_seqs(t), st),
